@@ -54,32 +54,66 @@ def _resets_cache(fn):
     return reset_at > last_loop and others == 0
 
 
-def _get_handler_shape(fn):
+def _get_handler_shape(fn, helpers):
+    """(memo, exact_first) for get_handler; `helpers`: name -> FunctionDef of the other methods of
+    TargetRegistry (the uncached lookup may live in a private helper method).
+
+    memo: the key is (type(obj), op); the memo is tested with `key not in self._type_cache`; the
+    only store is the last statement of the miss branch; a `False` handler raises (when raise_exc)
+    before that store — either in an earlier statement of the miss branch, or inside the helper
+    whose result is stored; the function returns `self._type_cache[key]`.
+    exact_first: the lookup tries `type_map[type(obj)]` and only on KeyError `_get_closest_type`."""
     if fn is None:
         return False, False
-    src = ast.unparse(fn)
-    body = [st for st in fn.body if not (isinstance(st, ast.Expr) and isinstance(st.value, ast.Constant))]
+    wf = _wild_node(fn)
+    body = [st for st in wf.body if not (isinstance(st, ast.Expr) and isinstance(st.value, ast.Constant))]
+    src = '\n'.join(ast.unparse(st) for st in body)
+    key_ok = '_ = (type(p1), p0)' in src or ('_ = type(p1)' in src and '_ = (_, p0)' in src)
     miss = [st for st in body if isinstance(st, ast.If)
-            and ast.unparse(st.test) == 'cache_key not in self._type_cache' and not st.orelse]
-    memo = (len(miss) == 1
-            and 'obj_type = type(obj)' in src and 'cache_key = (obj_type, op)' in src
-            and bool(body) and ast.unparse(body[-1]) == 'return self._type_cache[cache_key]'
-            and bool(miss[0].body) and ast.unparse(miss[0].body[-1]) == 'self._type_cache[cache_key] = ret'
-            and sum(1 for n in ast.walk(fn) if isinstance(n, ast.Assign) and _touches_cache(n.targets[0])) == 1)
+            and ast.unparse(st.test) == '_ not in self._type_cache' and not st.orelse]
+    stores = [n for n in ast.walk(wf) if isinstance(n, (ast.Assign, ast.AugAssign, ast.Delete))
+              and any(_touches_cache(t) for t in (n.targets if not isinstance(n, ast.AugAssign) else [n.target]))]
+    calls = [n for n in ast.walk(wf) if isinstance(n, ast.Call) and isinstance(n.func, ast.Attribute)
+             and _touches_cache(n.func.value)]
+    memo = (key_ok and len(miss) == 1 and len(stores) == 1 and not calls and bool(body)
+            and ast.unparse(body[-1]) == 'return self._type_cache[_]')
+    lookup = wf          # where the uncached lookup is written
     if memo:
-        # `if ret is False and raise_exc: raise …` precedes the store
-        guard = [i for i, st in enumerate(miss[0].body) if isinstance(st, ast.If)
-                 and ast.unparse(st.test) == 'ret is False and raise_exc'
-                 and len(st.body) == 1 and isinstance(st.body[0], ast.Raise)]
-        memo = len(guard) == 1 and guard[0] < len(miss[0].body) - 1
+        last = miss[0].body[-1]
+        memo = (isinstance(last, ast.Assign) and len(last.targets) == 1
+                and ast.unparse(last.targets[0]) == 'self._type_cache[_]')
+        if memo:
+            val = last.value
+            if isinstance(val, ast.Name):
+                guard = [i for i, st in enumerate(miss[0].body) if isinstance(st, ast.If)
+                         and ast.unparse(st.test) == '_ is False and p3'
+                         and len(st.body) == 1 and isinstance(st.body[0], ast.Raise)]
+                memo = len(guard) == 1 and guard[0] < len(miss[0].body) - 1
+            elif (isinstance(val, ast.Call) and isinstance(val.func, ast.Attribute)
+                  and isinstance(val.func.value, ast.Name) and val.func.value.id == 'self'
+                  and val.func.attr in helpers):
+                hf = helpers[val.func.attr]
+                pos = {a.arg: i for i, a in enumerate(hf.args.args)}
+                # which helper parameter receives raise_exc (p3 of get_handler)?
+                rx = [a.arg for a, v in zip(hf.args.args[1:], val.args) if ast.unparse(v) == 'p3']
+                hw = _wild_node(hf)
+                hbody = [st for st in hw.body if not (isinstance(st, ast.Expr) and isinstance(st.value, ast.Constant))]
+                rname = ('p%d' % (pos[rx[0]] - 1)) if rx else None
+                guard = [i for i, st in enumerate(hbody) if isinstance(st, ast.If) and rname
+                         and ast.unparse(st.test) == '_ is False and ' + rname
+                         and len(st.body) == 1 and isinstance(st.body[0], ast.Raise)]
+                memo = (len(guard) == 1 and guard[0] == len(hbody) - 2
+                        and ast.unparse(hbody[-1]) == 'return _' and not _touches_cache(hw))
+                lookup = hw
+            else:
+                memo = False
     exact_first = False
-    if miss:
-        for n in ast.walk(miss[0]):
-            if isinstance(n, ast.Try) and len(n.body) == 1 \
-                    and ast.unparse(n.body[0]) == 'ret = type_map[obj_type]' \
-                    and len(n.handlers) == 1 and ast.unparse(n.handlers[0].type) == 'KeyError' \
-                    and '_get_closest_type(obj' in ast.unparse(ast.Module(body=n.handlers[0].body, type_ignores=[])):
-                exact_first = True
+    for n in ast.walk(lookup):
+        if isinstance(n, ast.Try) and len(n.body) == 1 and ast.unparse(n.body[0]) == '_ = _[_]' \
+                and len(n.handlers) == 1 and n.handlers[0].type is not None \
+                and ast.unparse(n.handlers[0].type) == 'KeyError' \
+                and 'self._get_closest_type(' in ast.unparse(ast.Module(body=n.handlers[0].body, type_ignores=[])):
+            exact_first = True
     return memo, exact_first
 
 
@@ -133,8 +167,8 @@ def _builtin_attrs():
 
 
 # ---------------------------------------------------------------- spec -> ops shapes
-def _wild(fn):
-    """source of fn with parameters renamed by position (p0, p1, …; self/cls kept) and every
+def _wild_node(fn):
+    """copy of fn with parameters renamed by position (p0, p1, …; self/cls kept) and every
     other locally bound name replaced by `_`: insensitive to renamed locals and parameters"""
     import copy
     fn = copy.deepcopy(fn)
@@ -166,7 +200,12 @@ def _wild(fn):
                 n.id = pmap[n.id]
         if isinstance(n, ast.arg) and n.arg in pmap:
             n.arg = pmap[n.arg]
-    # docstrings and comments do not matter
+    return fn
+
+
+def _wild(fn):
+    """source of _wild_node(fn) without docstrings"""
+    fn = _wild_node(fn)
     body = [st for st in fn.body if not (isinstance(st, ast.Expr) and isinstance(st.value, ast.Constant))]
     return '\n'.join(ast.unparse(st) for st in body)
 
@@ -250,7 +289,11 @@ def extract(ctx):
               '`self._type_cache = {}`')
     if not resets_op:
         P.add('TargetRegistry.register_op: no final `self._type_cache = {}`')
-    memo, exact_first = _get_handler_shape(gh)
+    helpers = {}
+    for node in tree.body:
+        if isinstance(node, ast.ClassDef) and node.name == 'TargetRegistry':
+            helpers = {f.name: f for f in node.body if isinstance(f, ast.FunctionDef)}
+    memo, exact_first = _get_handler_shape(gh, helpers)
     if not memo:
         P.add('TargetRegistry.get_handler: memo shape not recognised')
     if not exact_first:
